@@ -119,7 +119,8 @@ static void an_case(int bt, int nb) {
 }
 static void an_name(int ev, char *b, size_t cap) { snprintf(b, cap, "arg(%d)", ev); }
 static void ls_case(int kind, int reps);
-static void an_apply(int ev) { an_stage[an_n++] = ev; if (an_n == 2) { an_n = 0; if (an_stage[0] >= 1000) ls_case(an_stage[0] - 1000, an_stage[1]); else an_case(an_stage[0], an_stage[1]); } }
+static void sq_case(int kind, int seq);
+static void an_apply(int ev) { an_stage[an_n++] = ev; if (an_n == 2) { an_n = 0; if (an_stage[0] >= 2000) sq_case(an_stage[0] - 2000, an_stage[1]); else if (an_stage[0] >= 1000) ls_case(an_stage[0] - 1000, an_stage[1]); else an_case(an_stage[0], an_stage[1]); } }
 static void an_root(void) { an_n = 0; M.arb.v = ARB_NONE; }
 static e1_cfg ancfg = { .nev = 1 << 16, .ev_name = an_name, .apply = an_apply, .root_setup = an_root };
 static void run_neighbours(void) {
@@ -150,6 +151,30 @@ static void run_long_sessions(void) {
     static const int CP[12] = {254, 255, 256, 257, 510, 511, 512, 513, 65534, 65535, 65536, 65537};
     static int p[2];
     for (int kind = 0; kind < 6; kind++) for (int c = 0; c < (vf_thorough() ? 12 : 8); c++) { p[0] = 1000 + kind; p[1] = CP[c]; e1_manual_path(&ancfg, p, 2); ls_case(kind, CP[c]); vf_outcome(vf_trace_hash() ^ (uint64_t)(kind * 131 + c)); }
+}
+
+/* ------------------------------------------------------------- sequence-number sweep (part of mode "addr")
+ * The active mapper sends ONE request with sequence number s (every s in 0..65535; 0 means "unsequenced" for some requests);
+ * whatever the responder does with that request, the role must stay where it is: Discover(M2) refused, Discover(M1) answered.
+ * kinds: Query, QueryLargeTlv, Emit, each directly and through the bridge.  pseudo path: [2000 + kind, s] */
+static void sq_case(int kind, int seq) {
+    int via = (kind & 1) ? ST_BR : ST_M1; int k = kind >> 1;
+    vf_world_reset(); root_setup();
+    pev d = ev_discover(0, ST_M1, via, 0x1111, 1); vf_trace_clear(); { int ex = arbiter_step(&d); drv_linux(&d, 0); oracle(&d, ex); }
+    pev e = k == 0 ? ev_query(0, ST_M1, via, (uint16_t)seq) : k == 1 ? ev_qlt(0, ST_M1, via, (uint16_t)seq, 0x0E, 0) : ev_emit1(0, ST_M1, via, (uint16_t)seq, 1, 0, ST_S0, ST_PEER);
+    vf_trace_clear(); arbiter_step(&e); drv_linux(&e, 0);
+    pev s1 = ev_discover(0, ST_M2, ST_M2, 0x2222, 7), s2 = ev_discover(0, ST_M1, via, 0x1111, 9);
+    vf_trace_clear(); { int ex = arbiter_step(&s1); drv_linux(&s1, 0); oracle(&s1, ex); }
+    vf_trace_clear(); { int ex = arbiter_step(&s2); drv_linux(&s2, 0); oracle(&s2, ex); }
+    an_cases++;
+    if (A.verbose) printf("    mapper M1%s, request kind %d with sequence number 0x%04x, then Discover(M2) and Discover(M1)\n", (kind & 1) ? " via BR" : "", k, seq);
+}
+static void run_seq_sweep(void) {
+    static int p[2];
+    for (int kind = 0; kind < 6; kind++) for (int seq = 0; seq < 65536; seq++) {
+        if (!vf_thorough() && seq > 0x0101 && seq < 0xFEFF && (seq & 0xFF) > 1 && (seq & 0xFF) < 0xFF && (seq >> 8) != (seq & 0xFF)) continue;
+        p[0] = 2000 + kind; p[1] = seq; e1_manual_path(&ancfg, p, 2); sq_case(kind, seq); vf_outcome(vf_trace_hash() ^ (uint64_t)(kind * 977));
+    }
 }
 
 static void run_sweep(void) {
@@ -189,7 +214,7 @@ int main(int argc, char **argv) {
     int sweep = strcmp(A.mode, "sweep") == 0, addr = strcmp(A.mode, "addr") == 0;
     if (A.replay) { A.verbose = 1; return e1_replay_file(addr ? &ancfg : sweep ? &sweep_cfg : &cfg, A.replay); }
     double t0 = vf_now_s();
-    if (addr) { run_neighbours(); run_long_sessions(); vf_sample("long sessions: 6 request kinds repeated 254..257 / 510..513%s times by the mapper, then Discover(M2) refused and Discover(M1) answered", vf_thorough() ? " / 65534..65537" : ""); R.evaluations = an_cases * 5; R.exhaustive = 1; vf_sample("3 base mapper addresses x {48 one-bit neighbours, 3 twins} x both services: Discover(X) accepted, Discover(Y) refused, Discover(X) accepted, Reset, Discover(Y) accepted"); }
+    if (addr) { run_neighbours(); run_long_sessions(); run_seq_sweep(); vf_sample("sequence sweep: the mapper's Query / QueryLargeTlv / Emit (direct, bridged) with sequence number %s, then Discover(M2) refused and Discover(M1) answered", vf_thorough() ? "0..65535" : "0..0x0101, 0xFEFF..0xFFFF and every value with a low byte in {0,1,0xFF} or equal bytes"); vf_sample("long sessions: 6 request kinds repeated 254..257 / 510..513%s times by the mapper, then Discover(M2) refused and Discover(M1) answered", vf_thorough() ? " / 65534..65537" : ""); R.evaluations = an_cases * 5; R.exhaustive = 1; vf_sample("3 base mapper addresses x {48 one-bit neighbours, 3 twins} x both services: Discover(X) accepted, Discover(Y) refused, Discover(X) accepted, Reset, Discover(Y) accepted"); }
     else if (sweep) run_sweep();
     else {
         e1_stats st; e1_run(&cfg, &st);
